@@ -40,7 +40,8 @@ def termsLine (line : String) : String :=
       let params := ps.map floatOfHex
       let coords := (words r).map floatOfHex
       match termEval kind params coords with
-      | some (e, g) => " ".intercalate ((e :: g).map hexOfFloat)
+      -- the reference zeroes a buffer and lets `add_gradient` do `+=` on it: a contribution of `-0.0` reads back as `0.0`
+      | some (e, g) => " ".intercalate ((e :: g.map (0.0 + ·)).map hexOfFloat)
       | none => "bad-kind"
     | _ => "bad-op"
   | _ => "bad-op"
